@@ -120,6 +120,16 @@ public:
     }
 
     /**
+     * @brief whether the slot holds the cleared marker (neither value nor link).
+     * @details A remove clears the slot word before it shrinks the permutation,
+     * so an optimistic reader can fetch a cleared word for an entry that is
+     * still listed in its permutation snapshot.
+     */
+    [[nodiscard]] bool is_cleared() const {
+        return loadAcquireN(child_or_v_) == kValPtrFlag;
+    }
+
+    /**
      * @brief Initialize the payload to zero.
      *
      */
